@@ -144,8 +144,26 @@ def mk_mod(a, m):
     return ("mod", _mk_lin(d, ca), m)
 
 
+SEQ_CALLS = {"list", "bytes", "str", "tuple", "bytearray", "sorted", "reversed"}
+
+
+def _seqish(t):
+    """Term known to denote a sequence (concatenation with + is ordered, not arithmetic)."""
+    if not isinstance(t, tuple) or not t:
+        return False
+    if is_const(t):
+        return t[1] in ("str", "bytes", "list", "tuple")
+    if t[0] in ("read", "readall", "getvalue", "concat", "fstr", "fmt", "list", "tuple", "comp", "zeros", "star"):
+        return True
+    if t[0] == "call" and t[1][0] == "free" and t[1][1] in SEQ_CALLS:
+        return True
+    if t[0] == "param" and t[1].startswith("*"):
+        return True
+    return False
+
+
 def mk_bin(op, a, b):
-    strish = lambda t: (is_const(t) and t[1] in ("str", "bytes")) or (isinstance(t, tuple) and t and t[0] in ("fstr", "fmt"))
+    strish = _seqish
     if op == "%" and strish(a):
         return ("fmt", a, b)
     if op in ("+", "-") and not (strish(a) or strish(b)):
